@@ -44,19 +44,22 @@ Proof.
     + exfalso. apply Hl; auto. discriminate.
 Qed.
 
-(** ** a spec disappears in a step only if its model is closed or no reference holds its value any more;
-    update_pandas / update_module keep the spec (same id) *)
+(** ** a spec disappears in a step only if its model is closed, or no reference holds its value any
+    more, or the step is Model.del_spec of that very value; update_pandas / update_module and the
+    sheet / path setters keep the spec (same id) *)
 Theorem spec_persists fuel ops o s :
   let st := run fuel ops in
   let st' := fst (step fuel st o) in
   In s (st_specs st) ->
   (exists s', In s' (st_specs st') /\ s_id s' = s_id s /\ s_grp s' = s_grp s)
   \/ In (s_grp s) (st_closed st')
-  \/ ~ bound st' (s_grp s) (s_val s).
+  \/ ~ bound st' (s_grp s) (s_val s)
+  \/ o = DelSpec (s_grp s) (s_val s).
 Proof.
   intros st st' Hs. destruct (step_inv fuel st o (run_inv fuel ops)) as [HI' HK].
-  destruct (HK s Hs) as [H|[H|H]]; auto.
-  right; right. intros Hb. apply (Inv_bound _ _ _ HI') in Hb. contradiction.
+  destruct (HK s Hs) as [H|[H|[H|H]]]; auto.
+  - right; right; left. intros Hb. apply (Inv_bound _ _ _ HI') in Hb. contradiction.
+  - right; right; right. destruct o; simpl in H; try discriminate. inversion H; subst. reflexivity.
 Qed.
 
 (** ** a successful creation leaves the spec and the reference *)
@@ -252,5 +255,28 @@ Example demo_state :
   /\ map (fun r => (r_own r, r_name r, r_val r)) (st_refs st) = [((0, Some 0), 11, 2); ((0, None), 30, 4)]
   /\ obs_refs 20 st = Ok [(0, None, 30, 4, false); (0, Some 0, 11, 2, false); (0, Some 1, 11, 2, true)]
   /\ map (fun o => snd (step 20 (run 20 (firstn 7 demo)) o)) [nth 7 demo (Close 0); nth 8 demo (Close 0)] = [RErr; RErr]
+  /\ check_sanity st = true.
+Proof. vm_compute. repeat split. Qed.
+
+(** the setters and del_spec: a sheet clash is refused, a file moves with all its specs, an occupied
+    path is refused, del_spec removes the spec and keeps the references *)
+Definition demo2 : list op :=
+  [ NewSpace 0 0;
+    NewPandas (0, Some 0) 10 2 FExcel (Some 1) 1 VPandas;
+    NewPandas (0, Some 0) 11 2 FExcel (Some 2) 2 VPandas;
+    NewPandas (0, Some 0) 12 0 FCsv None 3 VPandas;
+    SetSheet 0 1 (Some 2);          (* refused: s2 is taken *)
+    SetSheet 0 1 None;              (* refused (ideal): the file is shared *)
+    SetSheet 0 1 (Some 3);
+    SetPath 0 1 0;                  (* refused: a.csv is taken *)
+    SetPath 0 2 3;                  (* d/e.xlsx -> f.xlsx, both specs *)
+    DelSpec 0 3 ].
+
+Example demo2_state :
+  let st := run 20 demo2 in
+  map view (st_specs st) = [(0, 3, KExcel, Some 3, 1); (0, 3, KExcel, Some 2, 2)]
+  /\ List.length (st_refs st) = 3%nat
+  /\ map (fun k => snd (step 20 (run 20 (firstn k demo2)) (nth k demo2 (Close 0)))) [4; 5; 6; 7; 8; 9]%nat
+     = [RErr; RErr; ROk; RErr; ROk; ROk]
   /\ check_sanity st = true.
 Proof. vm_compute. repeat split. Qed.
